@@ -14,6 +14,12 @@ CLAIMED = {
     ),
 }
 
+CLAIMED["C03"] = (
+    "For every version and every header cell (command -1..5 x sub-type -1..max+2, enumerated completely) the real body of Message.validate - including the live voluptuous validator objects of the version tables and the repository's validator functions - is symbolically executed with node id, child id, ack and payload symbolic, and both directions 'accepted => api.valid' and 'rejected => not api.valid' are discharged; api.valid is an independent table-driven spec written from the property statement. The finite table conditions are decided by exhaustive evaluation of the live tables.",
+    "Trusted: my semantics of voluptuous All/Any/Coerce/Range/In/literals/Schema(Object) (T-vol), the AwesomeVersion abstraction (T-aw), int()/float()/unhexlify as uninterpreted functions shared by code and spec (T-str, T-hex), the spec tables (T-spec).",
+    "contract-based deductive verification: VCs from the real AST (pyvc) discharged by z3/cvc5; finite table conditions by exhaustive evaluation",
+)
+
 NOT_YET = {}
 
 def main():
